@@ -415,10 +415,14 @@ func c14Scenarios(thorough bool) []scenario {
 // C14 explores every interleaving of every producer/consumer program pair.
 func C14(c *core.Ctx) {
 	scs := c14Scenarios(c.Thorough())
-	c.Rep.Bound = "all interleavings (no preemption bound), happens-before state caching; plus single-thread streams over rings requested with 9 sizes (powers of two and not)"
+	c.Rep.Bound = "all interleavings (no preemption bound), happens-before state caching; plus single-thread streams over rings requested with 9 sizes (powers of two and not), and every sequence to depth 6 (quick) / 7 (thorough) of produce-obtain-commit steps with chunk sizes that return to the same ring index after a revolution"
 	c.Rep.Rule = fmt.Sprintf("scenarios = start offset x prefill x producer program x consumer program over the real ring of %d bytes (%d scenarios in this tier); per scenario every interleaving of producer and consumer at lock/cond/atomic granularity; an execution is non-trivial when the consumer obtained at least one byte the producer committed concurrently; distinct = distinct happens-before states", size, len(scs))
 	c14sizes(c)
 	if c.HasViolation() || c.Expired() {
+		return
+	}
+	c14laps(c)
+	if c.HasViolation() || c.Expired() || (c.Replay != nil && strings.HasPrefix(c.Replay.Scenario, "laps")) {
 		return
 	}
 	for _, sc := range scs {
@@ -580,6 +584,167 @@ func c14sizes(c *core.Ctx) {
 		}
 	}
 	c.Rep.Scenarios++
+}
+
+// c14laps: history kept across revolutions of the ring.  One thread alternates
+// "produce a chunk, obtain it, commit it" (the ring is empty in between) with
+// chunk sizes that bring the cursors back to the same ring index after one
+// revolution (8190+8190+16 = 8184+8184+16 = 16384, 8192+8192), obtained through
+// ReadWait or ReadPeek; every sequence to a depth, from two start positions.
+// Whatever a peek leaves behind (scratch slices, cached positions) meets the
+// same index again with other content.
+func c14laps(c *core.Ctx) {
+	sizes := []int{16, 8184, 8190, 8192}
+	depth := 6
+	if c.Thorough() {
+		sizes = []int{16, 100, 8184, 8190, 8192}
+		depth = 7
+	}
+	type lop struct {
+		n    int
+		kind byte // 'W' ReadWait, 'P' ReadPeek
+	}
+	var alpha []lop
+	for _, n := range sizes {
+		alpha = append(alpha, lop{n, 'W'}, lop{n, 'P'})
+	}
+	run := func(start int64, seq []int) string {
+		var msg string
+		body := func() {
+			service.VerifResetGlobals()
+			bf, err := service.VerifNewBuffer(size)
+			if err != nil {
+				vsched.Failf("newBuffer: %v", err)
+				return
+			}
+			if err := preroll(bf, start, 0); err != nil {
+				vsched.Failf("harness: preroll: %v", err)
+				return
+			}
+			pos := start
+			buf := make([]byte, 8192)
+			for i, k := range seq {
+				o := alpha[k]
+				p := buf[:o.n]
+				fill(p, pos)
+				if i%2 == 0 {
+					if n, err := bf.Write(p); err != nil || n != o.n {
+						vsched.Failf("Write(%d): n=%d err=%v", o.n, n, err)
+						return
+					}
+				} else {
+					w, wrap, err := bf.WriteWait(o.n)
+					if err != nil {
+						vsched.Failf("WriteWait(%d): %v", o.n, err)
+						return
+					}
+					if wrap {
+						if n, err := bf.Write(p); err != nil || n != o.n {
+							vsched.Failf("Write(%d): n=%d err=%v", o.n, n, err)
+							return
+						}
+					} else {
+						copy(w, p)
+						if _, err := bf.WriteCommit(o.n); err != nil {
+							vsched.Failf("WriteCommit(%d): %v", o.n, err)
+							return
+						}
+					}
+				}
+				var got []byte
+				if o.kind == 'W' {
+					got, err = bf.ReadWait(o.n)
+				} else {
+					got, err = bf.ReadPeek(o.n)
+				}
+				if err != nil || len(got) != o.n {
+					vsched.Failf("step %d: obtaining %d committed bytes at stream position %d: got %d, err=%v", i+1, o.n, pos, len(got), err)
+					return
+				}
+				if j := check(got, pos); j >= 0 {
+					vsched.Failf("step %d: the %d bytes obtained at stream position %d (ring index %d) are not the bytes committed there: first difference at offset %d", i+1, o.n, pos, pos%size, j)
+					return
+				}
+				if _, err := bf.ReadCommit(o.n); err != nil {
+					vsched.Failf("ReadCommit(%d): %v", o.n, err)
+					return
+				}
+				pos += int64(o.n)
+			}
+		}
+		res := explore.RunDefault(body)
+		c.Rep.Executions++
+		c.Rep.Evaluations++
+		c.Rep.Transitions += int64(len(res.Points))
+		if res.Status == vsched.StCrash {
+			msg = "panic: " + firstLine(res.Crash)
+		} else if len(res.Failures) > 0 {
+			msg = res.Failures[0]
+		} else if len(res.Parked) > 0 {
+			msg = "the single thread blocks: " + core.ParkedString(res.Parked)
+		}
+		return msg
+	}
+	describe := func(start int64, seq []int) string {
+		var parts []string
+		for _, k := range seq {
+			kind := "ReadWait"
+			if alpha[k].kind == 'P' {
+				kind = "ReadPeek"
+			}
+			parts = append(parts, fmt.Sprintf("%s(%d)", kind, alpha[k].n))
+		}
+		return fmt.Sprintf("laps from ring index %d: %s", start, strings.Join(parts, " "))
+	}
+	if c.Replay != nil {
+		if strings.HasPrefix(c.Replay.Scenario, "laps") {
+			fmt.Println("replay:", c.Replay.Scenario, "\n ", c.Replay.Message)
+			c.Rep.Scenarios++
+		}
+		return
+	}
+	leaf := 0
+	for _, start := range []int64{0, size - 4} {
+		seq := make([]int, 0, depth)
+		var rec func() bool
+		rec = func() bool {
+			if len(seq) == depth {
+				leaf++
+				if c.NShards > 1 && leaf%c.NShards != c.Shard {
+					return true
+				}
+				if leaf%256 == 0 && (c.Expired() || c.HasViolation()) {
+					return false
+				}
+				if msg := run(start, seq); msg != "" {
+					// shortest failing prefix
+					for l := 1; l < len(seq); l++ {
+						if m := run(start, seq[:l]); m != "" {
+							c.Violate("C14 laps :: "+generalize(m), core.Replay{Scenario: describe(start, seq[:l]), Message: m})
+							return false
+						}
+					}
+					c.Violate("C14 laps :: "+generalize(msg), core.Replay{Scenario: describe(start, seq), Message: msg})
+					return false
+				}
+				return true
+			}
+			for k := range alpha {
+				seq = append(seq, k)
+				ok := rec()
+				seq = seq[:len(seq)-1]
+				if !ok {
+					return false
+				}
+			}
+			return true
+		}
+		if !rec() {
+			return
+		}
+	}
+	c.Rep.Scenarios++
+	c.Rep.Sample(map[string]interface{}{"search": "laps", "chunk_sizes": sizes, "depth": depth, "sequences": leaf})
 }
 
 func firstLine(s string) string {
